@@ -254,6 +254,13 @@ func NewEnv(r *rand.Rand, c Case) (*Env, string) {
 // runOn runs one tool lifetime on srv (whose state was prepared by the caller).
 // initial=true: first ever start (bookkeeping, full sync of an empty snapshot, then replay).
 func (e *Env) runOn(r *rand.Rand, srv *fakeredis.Server, startApps []fakeredis.App, depth int, initial bool) (*RunLog, string) {
+	return e.runOnStop(r, srv, startApps, depth, initial, 0, 0)
+}
+
+// runOnStop: as runOn, but with stopAt > 0 the source goes silent after the command that ends at
+// absolute offset stopAt was delivered (a stalled source link), and after `linger` the tool is
+// stopped in the orderly way (context cancellation) instead of running to the sentinel.
+func (e *Env) runOnStop(r *rand.Rand, srv *fakeredis.Server, startApps []fakeredis.App, depth int, initial bool, stopAt int64, linger time.Duration) (*RunLog, string) {
 	ctx := context.Background()
 	l := &RunLog{Depth: depth, StartApps: startApps}
 	n0 := len(srv.Applied())
@@ -300,6 +307,12 @@ func (e *Env) runOn(r *rand.Rand, srv *fakeredis.Server, startApps []fakeredis.A
 		return l, ""
 	}
 	rest := e.Stream.Bytes[sp.Offset-e.C.Base:]
+	if stopAt > 0 {
+		if stopAt <= sp.Offset || stopAt > e.C.Base+int64(len(e.Stream.Bytes)) {
+			return nil, "stop point outside the part of the stream this run replays"
+		}
+		rest = e.Stream.Bytes[sp.Offset-e.C.Base : stopAt-e.C.Base]
+	}
 	plan := drive.Plan(r, rest, e.C.PauseUnit, e.C.PlanStyle)
 	if e.C.IdleFirst > 0 {
 		plan = append([]drive.Step{{Pause: e.C.IdleFirst}}, plan...)
@@ -307,6 +320,29 @@ func (e *Env) runOn(r *rand.Rand, srv *fakeredis.Server, startApps []fakeredis.A
 	seen := drive.WaitForID(srv, e.End.ID)
 	ar := ss.SendAof(ctx, sp.Offset, plan, false, 4096)
 	var done <-chan struct{} = seen
+	if stopAt > 0 {
+		// orderly stop while the source is silent: everything delivered, then `linger`, then cancel
+		select {
+		case <-ar.F.AllOut():
+			time.Sleep(linger)
+		case er := <-ar.Done:
+			ar.F.Abort()
+			l.SendErr = er
+			finish()
+			return l, ""
+		case <-time.After(60 * time.Second):
+			ar.Stop(10 * time.Second)
+			return nil, fmt.Sprintf("watchdog: stream up to the stop point not consumed (handed %d of %d bytes)", ar.F.Handed(), len(rest))
+		}
+		er, ok := ar.Stop(60 * time.Second)
+		if !ok {
+			return nil, "Send did not return after cancel"
+		}
+		l.SendErr = er
+		l.Note = "stopped in the orderly way"
+		finish()
+		return l, ""
+	}
 	if e.C.Base+e.End.End <= sp.Offset {
 		// nothing left to apply after the resume position: completion = every remaining byte
 		// consumed, then a few ticker periods of idling (keep-alive / checkpoint flushes)
